@@ -184,6 +184,7 @@ structure Env where
   blocked : List Addr                 -- `bankKeeper.BlockedAddr`
   createAddr : List (Nat × Addr)      -- `crypto.CreateAddress(ModuleAddress, nonce)`
   erc20Denom : List (Addr × Denom)    -- `types.CreateDenom(contract.String())`
+  macc : List Addr := []              -- the application's module accounts (`maccPerms`); the code never reads this list
 deriving Repr
 
 def Env.create (env : Env) (n : Nat) : R Addr :=
